@@ -76,11 +76,11 @@ func (n *simNet) count(k string) {
 	n.mu.Unlock()
 }
 
-// advertisement fetches (Interest or Data) are lost with probability 15%: the requester times out and retries
+// advertisement fetches (Interest or Data) are lost with probability 10%: the requester times out and retries
 func (n *simNet) lost() bool {
 	n.mu.Lock()
 	defer n.mu.Unlock()
-	return n.r.Intn(100) < 15
+	return n.r.Intn(100) < 10
 }
 
 func (n *simNet) delay() time.Duration {
@@ -350,7 +350,9 @@ func runProtoCase(t *testing.T, out *bufio.Writer, r *rand.Rand, k int, n int, e
 			p.startRouter(i)
 			time.Sleep(time.Duration(r.Intn(3000)) * time.Millisecond)
 		}
-		settle := time.Duration(2*p.cfgD+3*p.cfgS)*time.Millisecond + 20*time.Second
+		// dead detection (<= 2 dead intervals), then up to 16 counting steps per router chain, each of which may
+		// lose its fetch and wait for the 4 s Interest timeout
+		settle := time.Duration(2*p.cfgD+3*p.cfgS)*time.Millisecond + 320*time.Second
 		time.Sleep(settle)
 		p.check(settle)
 		for ph := 0; ph < phases; ph++ {
